@@ -1144,7 +1144,26 @@ fn vp_native_redirect_across_no_proxy_boundary_body() {
     settle(&plog, 1);
     let p = plog.lock().unwrap().clone();
     assert_eq!(p.len(), 1); assert_eq!(p[0].first_line, "GET http://external.test/ext HTTP/1.1");
-    println!("VP-NATIVE redirect_across_no_proxy_boundary cases=2");
+    // the proxy chosen for a hop cannot be reached: whatever the exchange does then, a server that is not that proxy never receives
+    // the request meant for the proxy (absolute-form target, the proxy's Host); a request that does reach the hop's own host names it
+    let mut cases = 2u64;
+    for status in [302u16, 307] {
+        let dead = 1u16;   // a privileged port nothing listens on and no test is ever handed: connecting is refused at once
+        let blog = Arc::new(Mutex::new(Vec::new())); let alog = Arc::new(Mutex::new(Vec::new()));
+        let b = serve_early(blog.clone(), |_, _| resp(200, None, "landed"));
+        let a = serve_early(alog.clone(), move |_, _| resp(status, Some(&format!("http://127.0.0.1:{}/landing?x=1", b)), ""));
+        let settings = crate::ProxySettings::builder().http_proxy(Url::parse(&format!("http://127.0.0.1:{}", dead)).unwrap()).add_no_proxy_host("localhost").build();
+        let mut s = crate::Session::new(); s.proxy_settings(settings); s.connect_timeout(std::time::Duration::from_secs(2));
+        let res = s.post(format!("http://localhost:{}/start", a)).header("X-Caller", "keep-me").text("body").send();
+        cases += 1; crate::verif_native_watchdog::progress();
+        std::thread::sleep(std::time::Duration::from_millis(100));
+        for x in blog.lock().unwrap().iter() {
+            assert!(x.first_line.split(' ').nth(1).map_or(false, |t| t.starts_with('/')), "a server that is not the proxy received the request meant for the proxy: {:?} (the proxy at port {} is down; {} redirect)", x.first_line, dead, status);
+            assert_eq!(x.host.as_deref(), Some(&format!("127.0.0.1:{}", b)[..]), "Host of a request that reached 127.0.0.1:{} directly ({} redirect, proxy down)", b, status);
+        }
+        if let Ok(r) = res { assert!(!blog.lock().unwrap().is_empty() || r.status().as_u16() == status, "an exchange that succeeded without the proxy and without reaching the target ({} redirect)", status); }
+    }
+    println!("VP-NATIVE redirect_across_no_proxy_boundary cases={}", cases);
 }
 
 /// C11: the proxy decision is taken for the URL of *every* hop: redirect chains that cross the no-proxy boundary in both directions
